@@ -374,7 +374,9 @@ func checkC13(c *Ctx) {
 										continue
 									}
 									snippet += s0.Const
-									if strings.TrimSpace(s0.Const) != "" {
+									// stop at the first piece that carries text; a bare comment marker does not (hoisting
+									// "With"+name into a local must not move the boundary of `// With<Name> …`)
+									if t0 := strings.TrimSpace(snippet); t0 != "" && t0 != "//" {
 										break
 									}
 								}
